@@ -16,6 +16,7 @@ import Grenad.Model.Merger
 import Grenad.Model.Sorter
 import Grenad.Model.IO
 import Grenad.Model.WriterIO
+import Grenad.Model.MetaIO
 
 open Grenad
 
@@ -264,6 +265,7 @@ def stepLine (st : St) (line : String) : St × String :=
   | "#" :: _ => (st, out3 "-")
   | "!sins" :: _ => (st, out3 "-")
   | "!merge" :: _ => (st, out3 "-")
+  | "!openfault" :: _ => (st, out3 "-")
   | "!mergew" :: _ => (st, out3 "-")
   | "!sfinish" :: _ => (st, out3 "-")
   | "S" :: _ => ({ fixF1 := st.fixF1 }, out3 "-")
@@ -310,13 +312,30 @@ def stepLine (st : St) (line : String) : St × String :=
           | .ok m => s!"ok v={m.version} root={m.root} codec={m.codec} count={m.count} levels={m.levels}"
           | .error e => s!"err {e.name}") s!"seeks={seeks} bytes={bytes} low={low}"
       | none => out3 "bad-op")
+  | ["openio", h, sch] =>
+    (st, match unhex h with
+      | some b =>
+        let rs : List IOM.RResp := if sch = "-" then [] else
+          (sch.splitOn ",").filterMap (fun t => match t.toList with
+            | 's' :: n => (String.ofList n).toNat?.map .serve
+            | ['i'] => some .interrupted
+            | 'f' :: n => (String.ofList n).toNat?.map .fail
+            | _ => none)
+        let (r, rest, tag) := Meta.parseIO b rs
+        out3 (match r with
+          | .ok m => s!"ok v={m.version} root={m.root} codec={m.codec} count={m.count} levels={m.levels}"
+          | .error .io => (match tag with
+              | some t => if t = 0 then "err io" else s!"err io {t}"
+              | none => "err io")
+          | .error e => s!"err {e.name}") s!"rest={rest.length}"
+      | none => out3 "bad-op")
   | ["file", h] =>
     match unhex h with
     | some b =>
       let m := Meta.parse b
       ({ st with file := b, hdr := m.toOption, cursors := [], iters := [] },
        match m with
-        | .ok m => out3 s!"ok v={m.version} codec={m.codec} count={m.count}" s!"root={m.root} levels={m.levels}"
+        | .ok m => out3 s!"ok v={m.version} codec={m.codec} count={m.count} empty={decide (m.count = 0)}" s!"root={m.root} levels={m.levels}"
         | .error e => out3 s!"err {e.name}")
     | none => (st, out3 "bad-op")
   | ["es", s] =>
